@@ -118,7 +118,9 @@ impl OutputFormat for IceDraw {
         // palette
         result.extend(buf.palette.as_vec_63());
         if options.save_sauce {
-            buf.write_sauce_info(crate::SauceFileType::Bin, &mut result)?;
+            // the width is part of the idf header (1..=80, odd ones too): a BinaryText record (width / 2) can't describe it,
+            // a character record carries width & height in full - as for adf
+            buf.write_sauce_info(crate::SauceFileType::Ansi, &mut result)?;
         }
         Ok(result)
     }
